@@ -127,6 +127,23 @@ def applyAll (c : Ctl) : List String → Ctl
     | .pins p v => applyAll { c with pins := c.pins ++ [(p, v)] } ls
     | .nothing => applyAll c ls
 
+/-- the lines as they are handed over poll by poll: `plan` = number of lines per poll; when the plan is used up the
+    rest arrives at once -/
+def batches (lines : List String) : List Nat → List (List String)
+  | [] => [lines]
+  | n :: rest => lines.take n :: batches (lines.drop n) rest
+
+/-- Does the guest ever get to execute an instruction?  The lines of a poll are acted on in arrival order; between
+    two polls the guest executes iff it is then neither paused nor stopped.  (`cmd:start` followed by `cmd:pause` in
+    one poll leaves it paused; the same two lines in two polls let it run in between.) -/
+def everRuns (paused : Bool) : List (List String) → Bool
+  | [] => !paused
+  | b :: bs =>
+    let c := applyAll { paused := paused } b
+    if c.stopped then false
+    else if !c.paused then true
+    else everRuns true bs
+
 /-! ### C18: outgoing framing -/
 
 /-- the receiver's view: split the byte stream at newlines, undo the two escapes -/
